@@ -18,7 +18,7 @@ from typing import (
     overload,
 )
 
-from apischema.cache import CacheAwareDict
+from apischema.cache import CacheAwareDict, reset
 from apischema.conversions.conversions import AnyConversion
 from apischema.methods import method_registerer
 from apischema.ordering import Ordering
@@ -169,6 +169,7 @@ def serialized(
         _serialized_methods[owner][alias2] = SerializedMethod(
             func, alias2, conversion, error_handler2, order, schema
         )
+        reset()  # in-place modification doesn't go through CacheAwareDict.__setitem__
 
     if isinstance(__arg, str):
         alias = __arg
